@@ -124,7 +124,7 @@ func (e *exec) Exec(op string) string {
 		return e.main.Exec(op)
 	case "crashblock":
 		return e.crashBlock(toks)
-	case "pchain", "grow", "prune", "view":
+	case "pchain", "grow", "prune", "view", "statuscrash":
 		return e.pruneOp(toks)
 	case "writes":
 		return fmt.Sprintf("writes=%d", e.lastWrites)
